@@ -575,6 +575,12 @@ func checkTokens(ts []tok, benign []tok) string {
 					if w := urlAttrOK(a.Val); w != "" {
 						return a.Key + " value " + w + ": " + clip(a.Val)
 					}
+					// a file: link is the literal scheme followed by the URL-escaped
+					// path and nothing else: dump text must not be able to open a
+					// query or a fragment
+					if strings.HasPrefix(a.Val, "file:///") && strings.ContainsAny(a.Val, "?#") {
+						return a.Key + " value: the path of a file: link is not URL-escaped ('?' or '#' survives): " + clip(a.Val)
+					}
 				}
 			}
 		}
